@@ -1679,7 +1679,8 @@ impl<'a, 'b> Gen<'a, 'b> {
         self.kw("specify");
         let n = 1 + self.t.below(4);
         for _ in 0..n {
-            match self.t.weighted(&[4, 3, 3, 2, 1, 1]) {
+            match self.t.weighted(&[4, 3, 3, 2, 1, 1, 4]) {
+                6 => self.system_timing_check(),
                 0 => {
                     // simple parallel path
                     self.sym("(");
